@@ -109,7 +109,7 @@ class Run:
         cmd = ['java', '-XX:+UseParallelGC']
         if heap:
             cmd.append('-Xmx' + heap)
-        cmd += ['-Xss64m', '-cp', TLA_JAR, 'tlc2.TLC', '-workers', str(workers), '-metadir', os.path.join(d, 'meta'),
+        cmd += ['-Xss64m', '-Djava.io.tmpdir=' + d, '-cp', TLA_JAR, 'tlc2.TLC', '-workers', str(workers), '-metadir', os.path.join(d, 'meta'),
                 '-config', cfgfile]
         if extra:
             cmd += extra
